@@ -302,3 +302,26 @@ func Verif_C07_ResourceManager() {
 		}
 	}
 }
+
+//verif:entry dpor tier=quick cover=leader,shared,sequential
+//verif:doc SingleFlight.DoEx across generations (quick companion of the 3-goroutine thorough run): goroutine 0 makes two consecutive calls on one key, goroutines 1 and 2 one call each on the same key, every function returns a value; ALL interleavings (DPOR): at most one execution in progress at any time, shared results only from overlapping leaders, no call record left.
+func Verif_C07_Generations() {
+	w := &c07World{running: map[string]int{}}
+	sf := NewSingleFlight()
+	done := 0
+	for g := 0; g < 3; g++ {
+		g := g
+		go func() {
+			w.doCall(sf, "k1", true, 1)
+			if g == 0 {
+				rt.Cover("sequential")
+				w.doCall(sf, "k1", true, 1)
+			}
+			done++
+		}()
+	}
+	rt.WaitIdle()
+	rt.Assert(done == 3, "all callers finish (no deadlock)")
+	w.check()
+	rt.Assert(len(sf.(*flightGroup).calls) == 0, "no call record is retained after its flight has finished")
+}
